@@ -501,14 +501,19 @@ def judge(blk, want_compiled):
     """-> ('rejected', where) | ('violation', class, detail)"""
     import pyrtl
     ok = (pyrtl.PyrtlError, pyrtl.PyrtlInternalError)
+    rejected_by_sanity = False
     try:
         _with_site_timeout(blk.sanity_check)
     except ok:
-        return ('rejected', 'sanity_check')
+        rejected_by_sanity = True
     except SiteTimeout:
         return ('violation', 'hang', {'where': 'sanity_check'})
     except Exception as e:
         return ('violation', 'wrong_exception_type', {'where': 'sanity_check', 'exc': repr(e)[:200]})
+    # the constructors are offered the block as well, whatever sanity_check said: a user who
+    # hands a malformed block straight to a simulator must not get a simulator back
+    want_compiled = want_compiled or rejected_by_sanity
+
     def tr():
         return pyrtl.SimulationTrace('all', block=blk)
     ctors = [('Simulation', lambda: pyrtl.Simulation(tracer=tr(), block=blk)),
@@ -524,8 +529,9 @@ def judge(blk, want_compiled):
             return ('violation', 'hang', {'where': name})
         except Exception as e:
             return ('violation', 'wrong_exception_type', {'where': name, 'exc': repr(e)[:200]})
-        return ('violation', 'malformed_block_accepted', {'where': name})
-    return ('rejected', 'constructors')
+        return ('violation', 'malformed_block_accepted',
+                {'where': name, 'sanity_check_rejects_it': rejected_by_sanity})
+    return ('rejected', 'sanity_check+constructors' if rejected_by_sanity else 'constructors')
 
 
 def run(case, res):
@@ -625,6 +631,22 @@ def run(case, res):
                         return Violation('iteration', 'consumer_before_producer',
                                          {'net': str(n), 'producer': str(p)}, ['positive', 'api'])
             res.probes.hit('api_built_schedules')
+            if k == 0:
+                # a second construction sitting on the same Block after somebody reset the
+                # global working block in between
+                pyrtl.reset_working_block()
+                plain = sorted((w for w in ab.block.wirevector_set if not isinstance(w, pyrtl.Output)),
+                               key=lambda w: w.name)
+                try:
+                    with pyrtl.set_working_block(ab.block, no_sanity_check=True):
+                        late = pyrtl.Output(name='late_o')
+                        late <<= ~(plain[0] ^ plain[len(plain) // 2]) + 1
+                    ab.block.sanity_check()
+                    pyrtl.Simulation(tracer=pyrtl.SimulationTrace('all', block=ab.block), block=ab.block)
+                except (pyrtl.PyrtlError, pyrtl.PyrtlInternalError) as e:
+                    return Violation('valid_design', 'design_extended_after_reset_working_block_rejected',
+                                     {'exc': repr(e)[:300]}, ['positive', 'api', 'second_sitting'])
+                res.probes.hit('second_sitting_after_reset')
         common.install_hash_seam(sched.get('hash_seed'))
         common.reset_world()
     res.probes.hit('iteration_schedules', len(case['scheds']))
